@@ -18,27 +18,44 @@ def demo(wt):
     return r.returncode, (r.stdout + r.stderr).strip().splitlines()[-3:]
 
 def confirm(wt, name):
+    """Confirm in a FRESH scratch worktree of /repo's HEAD (git stash is shared between worktrees, so it is never used):
+    demo must PASS on the original tree and FAIL after `git apply patch.diff`."""
     assert os.path.exists(f"{wt}/_seeded/patch.diff")
     meta = json.load(open(f"{wt}/_seeded/meta.json"))
-    st = sh(["git", "-C", wt, "status", "--porcelain", "--untracked-files=no"]).stdout
-    rc1, out1 = demo(wt)
-    sh(["git", "-C", wt, "stash"])
+    patch = sh(["git", "-C", wt, "diff", "--", "agilerl"]).stdout
+    given = open(f"{wt}/_seeded/patch.diff").read()
+    if not patch.strip():
+        patch = given  # the agent's worktree lost its change (shared stash): use the patch it delivered
+    scratch = "/dev/shm/confirm_" + name
+    sh(["git", "-C", "/repo", "worktree", "remove", "--force", scratch])
+    assert sh(["git", "-C", "/repo", "worktree", "add", "--detach", "-f", scratch, "HEAD"]).returncode == 0
     try:
-        rc0, out0 = demo(wt)
+        os.makedirs(scratch + "/_seeded", exist_ok=True)
+        shutil.copy(f"{wt}/_seeded/demo.py", scratch + "/_seeded/demo.py")
+        rc0, out0 = demo(scratch)
+        pf = scratch + "/_seeded/patch.diff"
+        open(pf, "w").write(patch)
+        ap = sh(["git", "-C", scratch, "apply", "--whitespace=nowarn", pf])
+        if ap.returncode:
+            print("patch does not apply to /repo HEAD:", ap.stderr[:300])
+            return 2
+        rc1, out1 = demo(scratch)
+        files = sh(["git", "-C", scratch, "diff", "--name-only"]).stdout.split()
     finally:
-        sh(["git", "-C", wt, "stash", "pop"])
-    print(f"changed tree: rc={rc1} {out1}\noriginal tree: rc={rc0} {out0}")
+        sh(["git", "-C", "/repo", "worktree", "remove", "--force", scratch])
+        sh(["git", "-C", "/repo", "worktree", "prune"])
+    print(f"original tree: rc={rc0} {[l[:160] for l in out0]}\nchanged tree: rc={rc1} {[l[:160] for l in out1]}")
     ok = rc1 == 1 and rc0 == 0
     dst = os.path.join(ROOT, "seeded", name)
     os.makedirs(dst, exist_ok=True)
-    # canonical patch: diff of agilerl/ only
-    patch = sh(["git", "-C", wt, "diff", "--", "agilerl"]).stdout
     open(os.path.join(dst, "patch.diff"), "w").write(patch)
     shutil.copy(f"{wt}/_seeded/demo.py", os.path.join(dst, "demo.py"))
-    meta["confirmed_by_me"] = {"demo_fails_with_change": rc1 == 1, "demo_passes_without": rc0 == 0, "modified_files": st.split()}
+    meta["confirmed_by_me"] = {"how": "fresh scratch worktree of /repo HEAD: demo.py before and after `git apply patch.diff`", "demo_fails_with_change": rc1 == 1,
+                               "demo_passes_without": rc0 == 0, "modified_files": files, "patch_identical_to_delivered": patch.strip() == given.strip()}
     json.dump(meta, open(os.path.join(dst, "meta.json"), "w"), indent=1)
     print("CONFIRMED" if ok else "NOT CONFIRMED", "->", dst)
     return 0 if ok else 1
+
 
 def check(name, props, runs):
     dst = os.path.join(ROOT, "seeded", name)
